@@ -156,6 +156,21 @@ def cand_cmd(r, spec, slot="{s}"):
     return "cand %s aw %s aw: %s%s" % (slot, ty, " ".join(map(str, gl.rand_aw(r, d, ty))), ll)
 
 
+def refine_cmd(r, spec, slot="g"):
+    """a refinement valid for the family: non-nested global rules (incl. custom tabulated) can only be updated"""
+    if spec["family"] == "global" and spec["rule"] not in gl.GLOBAL_NESTED:
+        return update_cmd(r, spec, slot) or "update %s 2 level" % slot
+    return gl.refine_cmds(r, spec, slot)
+
+
+def update_cmd(r, spec, slot="g"):
+    if spec.get("rule") == "custom-tabulated":      # the table has 4 levels
+        return "update %s %d %s" % (slot, r.randint(1, 3), r.choice(["level", "level", "hyperbolic", "tensor"]))
+    if spec["family"] == "global" and spec["rule"] in gl.GLOBAL_NONNESTED:
+        return "update %s %d %s" % (slot, r.randint(1, 3 if spec["dims"] > 1 else 5), r.choice(["level", "level", "iptotal", "qptotal", "hyperbolic"]))
+    return gl.update_cmd(r, spec, slot)
+
+
 def gen_case(r, cid, tier, family=None, force=None):
     g = Gen(r, cid, tier)
     fam = family or r.choice(gl.FAMILIES + ["custom"])
@@ -168,6 +183,8 @@ def gen_case(r, cid, tier, family=None, force=None):
         mk = "make custom g %d %d %d %s custom.table%s" % (d, spec["outs"], spec["depth"], spec["type"], gl.kv("ll:", spec["ll"]))
     else:
         spec = gl.rand_spec(r, family=fam, max_dims=3, outs=rand_outs(r))
+        if "tensor" in spec.get("type", "") and spec.get("aw"):
+            spec["aw"] = []          # tensor selections scale with the weights: 3-d Fourier grids of 10^6 points
         if force == "construct" and fam == "global":
             spec["rule"] = r.choice(NESTED_FOR_CONSTRUCTION)
         mk = gl.make_cmd(spec)
@@ -186,6 +203,7 @@ def gen_case(r, cid, tier, family=None, force=None):
         conformal = True
     g.xs = gl.rand_points(r, spec, 3, trans)
     loaded, needed, constructing, refined = (outs == 0), (outs > 0), False, False
+    random_coefs = False
     nested = (spec["family"] != "global" or spec["rule"] in gl.GLOBAL_NESTED) and not conformal      # 'nested' gates beginConstruction
     iscustom = spec.get("rule") == "custom-tabulated"     # updateGrid() of a custom-rule grid without loaded values re-reads the rule from a null file name
     fns = ["hash", "hash", "poly", "smooth", "affine"]
@@ -206,10 +224,10 @@ def gen_case(r, cid, tier, family=None, force=None):
         if needed:
             c = ["load {s} " + r.choice(fns)]
             if r.random() < 0.6:
-                c.append(gl.refine_cmds(r, spec, "{s}"))
+                c.append(refine_cmd(r, spec, "{s}"))
             return c
         if loaded:
-            c = [gl.refine_cmds(r, spec, "{s}")]
+            c = [refine_cmd(r, spec, "{s}")] if not (random_coefs and spec["family"] in ("global", "sequence", "fourier")) else ["load {s} hash"]
             if r.random() < 0.6:
                 c.append("load {s} " + r.choice(fns))
             if r.random() < 0.3 and nested:
@@ -251,7 +269,7 @@ def gen_case(r, cid, tier, family=None, force=None):
                 needed = False
         elif outs == 0:
             if k < 0.5:
-                u = gl.update_cmd(r, spec) if not iscustom else None
+                u = update_cmd(r, spec) if not iscustom else None
                 if u:
                     g.lines.append(u)
                     did = "update"
@@ -274,11 +292,15 @@ def gen_case(r, cid, tier, family=None, force=None):
                         g.lines.append("begin g")
                         g.lines.append(cand_cmd(r, spec, "g"))
                         constructing, needed, did = True, False, "begin"
+                    elif random_coefs and spec["family"] in ("global", "sequence", "fourier"):
+                        # anisotropic refinement driven by arbitrary coefficients can select 10^6 points: reload the values first
+                        g.lines.append("load g " + r.choice(fns))
+                        random_coefs, did = False, "load"
                     else:
-                        g.lines.append(gl.refine_cmds(r, spec))
+                        g.lines.append(refine_cmd(r, spec))
                         needed, refined, did = True, True, "refine"
                 elif k < 0.55:
-                    u = gl.update_cmd(r, spec)
+                    u = update_cmd(r, spec)
                     if u:
                         g.lines.append(u)
                         needed, did = True, "update"
@@ -295,6 +317,7 @@ def gen_case(r, cid, tier, family=None, force=None):
                 elif k < 0.82:
                     g.lines.append("setcoef g " + r.choice(fns))
                     did = "setcoef"
+                    random_coefs = True
                 elif k < 0.92:
                     how = r.choice(["copy", "assign", "cctor", "sub"])
                     if how == "sub" and outs >= 2:
@@ -374,7 +397,15 @@ def corpus_cases(r, tier):
     mk("cFourierAll", ["make fourier g 2 2 2 level", "load g cosk", ("g", "loaded:fourier", ["update {s} 3 level", "load {s} cosk"]), "update g 3 level", ("g", "loaded+needed:fourier", ["load {s} cosk"]),
                        "load g cosk", "begin g", "cand g aw level aw: 1 1", "deliver g cosk idx: 7 3 1", ("g", "constructing:fourier", ["cand {s} aw level aw: 1 1", "deliver {s} cosk idx: 0 1 2 3"])],
        sp("fourier", 2, 2), [0.25, 0.5, 0.75, 0.1, 0.0, 0.3], None)
-    return out
+    # minimised witnesses / regression inputs of corpus/C06 (always first in the stream of cases)
+    wit = []
+    for f in sorted(glob.glob(os.path.join(vlib.ROOT, "corpus", PID, "*.json"))):
+        import json
+        w = json.load(open(f))
+        out_before = len(out)
+        mk(w["name"], [tuple(l) if isinstance(l, list) else l for l in w["lines"]], sp(w["family"], len(w["x"]) // 2 if w["x"] else 0, 1, rule=w.get("rule", "")), w["x"], None)
+        wit.append(out.pop(out_before))
+    return wit + out
 
 
 # ------------------------------------------------------------------------------------------------ output parsing
@@ -538,6 +569,7 @@ def check_api_vs_fields(fields, api):
     return bad
 
 
+MAX_MODEL_BYTES = 400000
 DERIVED = {"qw", "iw", "eval", "evalb", "integ", "diff", "hbasis", "hsupport"}
 TOL = 1e-9
 
@@ -575,6 +607,17 @@ def trigger_of(raw, default):
     return default
 
 
+def rerun_hang(g, cmd, stats):
+    """a time-out is a hang only if the command still does not return with ten times the budget (case run alone)"""
+    drv, wd = stats["drv"], stats["wd"]
+    sp = os.path.join(wd, "hang_%s.txt" % g.cid)
+    with open(sp, "w") as fh:
+        fh.write("\n".join(g.lines) + "\n")
+    rc, so, se = vlib.run([drv, sp, wd, "150"], timeout=400)
+    steps = parse_output(so).get(g.cid, [])
+    return any(t.exc and t.exc[0] == "hang" for t in steps)
+
+
 def evaluate(res, gens, cases, model, stats, fam_of):
     for g in gens:
         steps = cases.get(g.cid)
@@ -584,9 +627,23 @@ def evaluate(res, gens, cases, model, stats, fam_of):
             res.violation("driver-no-output", "no output for case %s" % g.cid, replay)
             continue
 
-        def viol(key, what, model_only=False):
+        # a history call that threw may have left the object half-updated (that is C14's matter: misuse must not corrupt);
+        # failures observed after such a call are counted, not reported
+        hist_exc = {"i": None}
+
+        def viol(key, what, at=None):
+            if hist_exc["i"] is not None and (at is None or at > hist_exc["i"]):
+                stats["failures_after_a_rejected_history_call"] += 1
+                stats["failures_after_a_rejected_history_call_examples"].setdefault(key, [g.lines[1], hist_exc["cmd"], what[:200]])
+                return
             stats["violations"] += 1
             res.violation(key, "%s [case %s: %s]" % (what, g.cid, g.lines[1]), dict(replay, detail=what))
+        for ii, t in enumerate(steps):
+            cc = t.cmd.split()
+            if t.exc is not None and t.exc[0] in ("invalid_argument", "runtime_error") and len(cc) > 1 and cc[1] == "g" and \
+                    cc[0] not in ("deliver", "deliverx", "cand", "read", "readf", "write", "writef", "digest", "dump", "savebytes"):
+                hist_exc["i"], hist_exc["cmd"] = ii, t.cmd + " -> " + t.exc[1][:120]
+                break
         crash = [s for s in steps if s.exc and (s.exc[0].startswith("crash") or s.exc[0] == "hang")]
         if crash:
             # the child died in the last echoed command: a failure inside an I/O call, or on a restored grid, is a C06 matter;
@@ -598,11 +655,13 @@ def evaluate(res, gens, cases, model, stats, fam_of):
             kind = "hang" if s.exc[0] == "hang" else "crash"
             lastraw = [t.raw for t in steps if t.raw is not None]
             trig = trigger_of(lastraw[-1] if lastraw else {}, "?")
-            if io:
+            if kind == "hang" and (io or restored) and not rerun_hang(g, s.cmd, stats):
+                stats["slow_cases_not_hanging_with_10x_budget"] += 1
+            elif io:
                 viol("%s-in-%s:%s:%s:%s" % (kind, "read" if c[0].startswith("read") else "write", c[2] if len(c) > 2 else "?", fam, trig),
-                     "%s (%s) inside '%s' (grid state: %s)" % (kind, s.exc[0], s.cmd, trig))
+                     "%s (%s) inside '%s' (grid state: %s)" % (kind, s.exc[0], s.cmd, trig), at=steps.index(s))
             elif restored:
-                viol("%s-on-restored:%s:%s:%s" % (kind, c[0], fam, trig), "%s (%s) in '%s' on a restored grid; the same call on the original returned" % (kind, s.exc[0], s.cmd))
+                viol("%s-on-restored:%s:%s:%s" % (kind, c[0], fam, trig), "%s (%s) in '%s' on a restored grid; the same call on the original returned" % (kind, s.exc[0], s.cmd), at=steps.index(s))
             else:
                 stats["library_failures_outside_io"][kind + ":" + c[0]] = stats["library_failures_outside_io"].get(kind + ":" + c[0], 0) + 1
                 stats["library_failure_examples"].setdefault(kind + ":" + c[0], [g.lines[1]] + [t.cmd for t in steps[-3:]])
@@ -627,25 +686,28 @@ def evaluate(res, gens, cases, model, stats, fam_of):
             # ---- tie: model decode / re-encode / fields
             m = model.get(ob["tag"])
             if m is None:
-                stats["model_missing"] += 1
+                if ob["tag"] in stats["too_large"]:
+                    stats["model_skipped_large"] += 1
+                else:
+                    stats["model_missing"] += 1
             else:
                 bad = [l for l in m["status"] if l.startswith("MISMATCH")]
                 if bad:
-                    viol("model-%s:%s:%s" % (bad[0].split()[2].rstrip(":"), fam, trigger_of(live.raw if live else None, cls)), "the binary image does not follow the proved grammar: " + bad[0][:300])
+                    viol("model-%s:%s:%s" % (bad[0].split()[2].rstrip(":"), fam, trigger_of(live.raw if live else None, cls)), "the binary image does not follow the proved grammar: " + bad[0][:300], at=i)
                     stats["model_mismatch"] += 1
                 elif live is not None and live.raw is not None:
                     f, rw = m["fields"], live.raw
                     diff = [t for t in sorted(set(f) | set(rw)) if f.get(t) != rw.get(t)]
                     if diff:
                         t = diff[0]
-                        viol("field:%s:%s" % (fam, t), "decoded field %s = %s but the live object has %s (state %s)" % (t, str(f.get(t))[:100], str(rw.get(t))[:100], state))
+                        viol("field:%s:%s" % (fam, t), "decoded field %s = %s but the live object has %s (state %s)" % (t, str(f.get(t))[:100], str(rw.get(t))[:100], state), at=i)
                         stats["model_mismatch"] += 1
                     else:
                         stats["model_agree"] += 1
                         stats["fields_compared"] += len(f)
                     if live.api is not None:
                         for what, a, b in check_api_vs_fields(f, live.api):
-                            viol("getter:%s:%s" % (fam, what), "decoded %s = %s but the public getter returns %s (state %s)" % (what, a, b, state))
+                            viol("getter:%s:%s" % (fam, what), "decoded %s = %s but the public getter returns %s (state %s)" % (what, a, b, state), at=i)
                             stats["model_mismatch"] += 1
                         stats["getter_checks"] += 1
             # ---- direct checks
@@ -662,9 +724,9 @@ def evaluate(res, gens, cases, model, stats, fam_of):
                     break
                 if c[0] in ("read", "readf") and t.exc is not None:
                     fmt = c[2]
-                    viol("read-throws:%s:%s:%s" % (fmt, fam, trigger_of(live.raw if live else None, cls)), "%s of what the library wrote raised %s %s (state %s)" % (t.cmd, t.exc[0], t.exc[1][:150], state))
+                    viol("read-throws:%s:%s:%s" % (fmt, fam, trigger_of(live.raw if live else None, cls)), "%s of what the library wrote raised %s %s (state %s)" % (t.cmd, t.exc[0], t.exc[1][:150], state), at=j)
                 if c[0] in ("write", "writef") and t.exc is not None:
-                    viol("write-throws:%s:%s:%s" % (c[2], fam, trigger_of(live.raw if live else None, cls)), "%s raised %s %s (state %s)" % (t.cmd, t.exc[0], t.exc[1][:150], state))
+                    viol("write-throws:%s:%s:%s" % (c[2], fam, trigger_of(live.raw if live else None, cls)), "%s raised %s %s (state %s)" % (t.cmd, t.exc[0], t.exc[1][:150], state), at=j)
                 if c[0] == "digest" and t.dg is not None:
                     who = c[1]
                     if who == slot and ref is None:
@@ -685,7 +747,7 @@ def evaluate(res, gens, cases, model, stats, fam_of):
                             kind = "rewrite" if set(diff) <= {"bin", "ascii"} else "restore"
                             viol("%s:%s:%s:%s:%s" % (kind, route.split(":")[0], fam, k, trigger_of(live.raw if live else None, cls)),
                                  "after write/read through %s the %s differs from the original (all differing categories: %s; state %s)" % (
-                                     route, "re-written image" if kind == "rewrite" else "query API digest", ",".join(diff), state))
+                                     route, "re-written image" if kind == "rewrite" else "query API digest", ",".join(diff), state), at=j)
                         else:
                             stats["roundtrips_equal"] += 1
                 if c[0] == "copy" and c[1] == "co":
@@ -857,7 +919,7 @@ def run(res, tier, seed, replay_script=None):
         gens = [g]
     else:
         gens = corpus_cases(r, tier)
-        n = {"quick": 1200, "thorough": 12000}[tier] * (3 if proof_broken else 1)
+        n = {"quick": 5000, "thorough": 40000}[tier] * (3 if proof_broken else 1)
         for i in range(n):
             force = "construct" if i % 4 == 0 else None
             gens.append(gen_case(r, "h%d" % i, tier, force=force))
@@ -872,6 +934,7 @@ def run(res, tier, seed, replay_script=None):
 
     # ---- the model on every saved image
     model = {}
+    too_large = set()
     mism_runner = None
     if runner:
         tags = []
@@ -879,7 +942,10 @@ def run(res, tier, seed, replay_script=None):
             for ob in g.obs:
                 p = os.path.join(wd, ob["tag"] + ".bin")
                 if os.path.exists(p):
-                    tags.append((ob["tag"], p))
+                    if os.path.getsize(p) > MAX_MODEL_BYTES:
+                        too_large.add(ob["tag"])        # (a refinement that exploded: > 10^4 points; judged by the direct checks only)
+                    else:
+                        tags.append((ob["tag"], p))
         nchunk = max(1, min(vlib.NCPU, len(tags)))
         parts = [tags[i::nchunk] for i in range(nchunk)]
 
@@ -899,7 +965,7 @@ def run(res, tier, seed, replay_script=None):
     t0 = time.time()
     stats = {"observations": 0, "violations": 0, "model_agree": 0, "model_mismatch": 0, "model_missing": 0, "fields_compared": 0, "getter_checks": 0,
              "roundtrips": 0, "roundtrips_equal": 0, "continuations": 0, "continuations_equal": 0, "states": {},
-             "library_failures_outside_io": {}, "library_failure_examples": {}, "to_confirm": [], "derived_hash_differences": 0, "confirm_incomplete": 0, "rounding_level_differences": 0,
+             "library_failures_outside_io": {}, "library_failure_examples": {}, "to_confirm": [], "failures_after_a_rejected_history_call": 0, "failures_after_a_rejected_history_call_examples": {}, "drv": drv, "wd": wd, "slow_cases_not_hanging_with_10x_budget": 0, "too_large": too_large, "model_skipped_large": 0, "derived_hash_differences": 0, "confirm_incomplete": 0, "rounding_level_differences": 0,
              "rounding_level_categories": {}, "continuations_confirmed_equal": 0, "rounding_sensitive_continuations_skipped": 0}
     evaluate(res, gens, cases, model, stats, None)
     vlib.log("[C06] evaluation in %.1fs" % (time.time() - t0))
@@ -938,7 +1004,7 @@ def run(res, tier, seed, replay_script=None):
         "samples": [g.lines[:14] for g in gens[11:13]],
         "programs": len(gens), "observations": stats["observations"], "history_classes": stats["states"],
         "traces_validated_against_impl": stats["model_agree"], "disagreements_checked": stats["model_mismatch"],
-        "model_fields_compared": stats["fields_compared"], "public_getter_comparisons": stats["getter_checks"],
+        "model_fields_compared": stats["fields_compared"], "images_skipped_larger_than_%d_bytes" % MAX_MODEL_BYTES: stats["model_skipped_large"], "public_getter_comparisons": stats["getter_checks"],
         "roundtrips_compared": stats["roundtrips"], "roundtrips_bit_identical": stats["roundtrips_equal"],
         "continuations_compared": stats["continuations"], "continuations_equal": stats["continuations_equal"],
         "continuation_hash_differences_rechecked_on_the_original_itself_equal": stats["continuations_confirmed_equal"],
@@ -946,6 +1012,8 @@ def run(res, tier, seed, replay_script=None):
         "continuations_skipped_rounding_sensitive": stats["rounding_sensitive_continuations_skipped"], "confirmations_incomplete": stats["confirm_incomplete"],
         "family_distribution": fam_count, "api_exceptions_in_scripts": excs,
         "direct_property_violations": stats["violations"],
+        "failures_after_a_rejected_history_call_not_reported": stats["failures_after_a_rejected_history_call"],
+        "failures_after_a_rejected_history_call_examples": stats["failures_after_a_rejected_history_call_examples"], "timeouts_that_returned_with_10x_budget": stats["slow_cases_not_hanging_with_10x_budget"],
         "skipped_library_failures_outside_io": stats["library_failures_outside_io"], "skipped_library_failure_examples": stats["library_failure_examples"],
     })
     res.assumptions = [
